@@ -146,6 +146,26 @@ def fn_equal_dups(case):
     return (len(idxs) >= 2, None, viols, 2)
 
 
+def fn_many(case):
+    """many dependencies under one sibling list (sizes around 64 / 128 / 256, names repeating): nothing is dropped or
+    reordered with dedup disabled, and resolution is still one per name, highest version, earliest on ties."""
+    from htmltools import HTMLDependency
+    n, nnames, placement = case
+    deps = [HTMLDependency(f"n{i % nnames}", f"1.{(i * 7) % 5}", script={"src": f"s{i}.js"}) for i in range(n)]
+    tree = place(deps, placement)
+    viols = []
+    raw = tree.get_dependencies(dedup=False)
+    if [id(d) for d in raw] != [id(d) for d in deps]:
+        viols.append(("collect:dedup=False:many", f"get_dependencies(dedup=False) returned {len(raw)} of {n} dependencies "
+                      "(or reordered them)", {"n": n}))
+    exp = [p for (_, _, p) in resolve([(d.name, str(d.version), i) for i, d in enumerate(deps)])]
+    got = tree.get_dependencies()
+    gi = [next((i for i, d in enumerate(deps) if d is g), None) for g in got]
+    if gi != exp:
+        viols.append(("resolve:many", "resolution of a large dependency list differs from the rule", {"n": n}))
+    return (True, None, viols, 2)
+
+
 # -------------------------------------------------------- version ordering
 VERS2 = ["0.9", "1", "1.0", "1.2.3.4", "1.2.3.10", "1.2.3", "1.2.10", "1.10", "1.9.9.9.9", "2.0.0.0.1", "2",
          "10.0", "9.99", "1.2.3.4.5", "1.2.3.4.10", "01.2.3.4"]
@@ -328,6 +348,10 @@ def plan(tier):
              space=Prod(Seq(Const([0, 1, 2, 3]), 1, 4), Const(["flat", "nested", "mixed", "inline", "void"])),
              note="sequences of <= 4 over two pairs of equal-but-distinct dependency objects (repeats = the same object "
                   "again) x 5 placements: dedup=False keeps every occurrence in order"),
+        dict(kind="space", name="many-dependencies", fn=fn_many,
+             space=Prod(Const([31, 32, 33, 63, 64, 65, 66, 90, 127, 128, 129, 255, 256, 257, 1025]), Const([1, 3, 30]),
+                        Const(["flat", "nested", "mixed", "inline"])),
+             note="15 list sizes around the powers of two x {1, 3, 30} distinct names x 4 placements"),
         dict(kind="space", name="constructor-validation", fn=fn_validation, space=Const(validation_cases()),
              note="equal single/list forms and every malformed definition named in the statement"),
     ]
